@@ -2080,6 +2080,16 @@ def rule_X7(F, R):
                 ok = bool(pushes) and guarded_ == len(pushes)
         R.count('X7:deduplicated-lists'); R.obligation(ok, 'X7 unique ' + fn)
         if not ok: R.violation('%s / X7 / duplicates' % fn, 'X7', 'the %s must be de-duplicated (`.unique()`): a node shared by several parents is one node with one set of outgoing edges' % what)
+    # (b') the edges of the parse tree are NOT de-duplicated: an operator applied to the same sub-term twice (`a & a`, `[a, a, b] = 2`) has two
+    # edges to the one shared node, told apart by their labels
+    pte = [k for k in lib.ithir if k.split('::{closure')[0].endswith('GraphWalk>::edges') and 'SymbolicParseTree' in k]
+    for k in pte:
+        for e in walk(lib.ithir[k]['body']):
+            if e['k'] == 'Call' and (callee_name(e) or '').split('::')[-1] in ('unique', 'unique_by', 'dedup', 'dedup_by', 'dedup_by_key') or \
+                    (e['k'] == 'Call' and (callee_name(e) or '').split('::')[-1] == 'collect' and any(s_ in e['ty'].get('s', '') for s_ in ('HashSet', 'BTreeSet', 'IndexSet', 'HashMap', 'BTreeMap'))):
+                R.obligation(False, 'X7 parse-tree edges dedup')
+                R.violation('rsbdd::parser_io::SymbolicParseTree / X7 / edges de-duplicated', 'X7', 'the edge list of the parse tree must keep parallel edges (one per operand position): `%s` merges the edges of a node whose operands are the same sub-term' % (callee_name(e) or '').split('::')[-1], e['loc'])
+    R.count('X7:parse-tree-edge-lists', len(pte))
     # (c') the label of a node shows its lists as they are: no adaptor that drops, repeats or reorders members
     BAD = ('unique', 'unique_by', 'dedup', 'dedup_by', 'filter', 'filter_map', 'skip', 'take', 'skip_while', 'take_while', 'step_by', 'rev', 'sorted', 'sorted_by', 'sorted_by_key', 'last', 'nth', 'first')
     for name, t in lib.ithir.items():
@@ -2191,6 +2201,170 @@ def rule_references(F, R, which=('eval_recursive', 'replace_var', 'var_is_free')
                 ok = False; why = 'it changes the definitions while walking the formula (a later evaluation, or another reference to the same name, sees a different definition)'
         R.count('XR:reference-arms'); R.obligation(ok, 'XR ' + short)
         if not ok: R.violation('%s / XR / named definitions' % fn, 'XR', '%s: %s' % (short, why), t['span']['loc'] if 'span' in t else None)
+
+# ------------------------------------------------------------------------------------------------ X12 layout of a table row
+class _RowUndec(Exception): pass
+
+def row_text(binc, t, k):
+    """the text print_sized_line writes for a row of k cells, with the cells «L0»..«Lk-1» and the result «R» as opaque pieces (padding is
+    ignored): a small interpreter for print!/write! calls, loops over the labels, collected / joined lists of strings and nested format!s"""
+    import engine_n, engine_u
+    params = [unwrap_pat(p['pat']).get('var') if 'pat' in p else None for p in t['params']]
+    labels_p, result_p = params[0], params[-1]
+    LAB = ['\u00abL%d\u00bb' % i for i in range(k)]
+    def peel(e):
+        while e['k'] in ('Use', 'Borrow', 'Deref', 'NeverToAny', 'Cast', 'PointerCoercion'): e = e.get('source') or e.get('arg')
+        return e
+    TRANSP = ('to_string', 'clone', 'deref', 'as_str', 'to_owned', 'as_ref', 'into', 'from', 'borrow', 'must_use', 'iter', 'into_iter', 'collect', 'as_slice', 'deref_mut', 'cloned', 'copied', 'by_ref')
+    def fmt(b, env):
+        tm, args = engine_n.format_block_parts(b)
+        if tm is None: raise _RowUndec('format without a template')
+        text = engine_u.decode_template(tm['value'])
+        parts = text.split('{}')
+        if len(parts) == 1: return text
+        wr = None
+        for st in b['stmts']:
+            i0 = peel(st['init']) if st['k'] == 'Let' and st.get('init') is not None else None
+            if i0 is not None and i0['k'] == 'Array': wr = i0['fields']
+        if args is None or wr is None or len(wr) != len(parts) - 1: raise _RowUndec('format arguments')
+        out = parts[0]
+        for w, nxt in zip(wr, parts[1:]):
+            fld = [x for x in walk(w) if x['k'] == 'Field']
+            if not fld or fld[0]['field'] >= len(args): raise _RowUndec('format argument')
+            out += ev_str(args[fld[0]['field']], env) + nxt
+        return out
+    def is_fmt_block(b):
+        return b['k'] == 'Block' and b.get('expr') is not None and any(x['k'] == 'Literal' and x.get('lit') == 'ByteStr' for x in walk(b['expr'])) and \
+            any(st['k'] == 'Let' and st.get('init') is not None and peel(st['init'])['k'] == 'Tuple' for st in b['stmts'])
+    def ev_str(e, env):
+        e = peel(e)
+        k_ = e['k']
+        if k_ == 'Literal' and e.get('lit') == 'Str': return e['value']
+        if k_ in ('VarRef', 'UpvarRef'):
+            v = env.get(e['var'])
+            if isinstance(v, str): return v
+            raise _RowUndec('text of %s' % e['var'].split('#')[0])
+        if k_ == 'Match' and root_var(e['scrutinee']) == result_p: return '\u00abR\u00bb'
+        if k_ == 'Block':
+            if is_fmt_block(e): return fmt(e, env)
+            env = dict(env)
+            for st in e['stmts']:
+                if st['k'] == 'Let' and st.get('init') is not None:
+                    q = unwrap_pat(st['pat'])
+                    if q['k'] == 'Binding':
+                        for f_ in (ev_str, ev_list):
+                            try: env[q['var']] = f_(st['init'], env); break
+                            except _RowUndec: pass
+                # padding statements (`padded.extend(repeat(' ').take(missing))`) do not change the pieces
+            if e.get('expr') is None: raise _RowUndec('block without a value')
+            return ev_str(e['expr'], env)
+        if k_ == 'Call':
+            cn = (callee_name(e) or '').split('::')[-1]
+            if cn == 'join' and len(e['args']) == 2: return ev_str(e['args'][1], env).join(ev_list(e['args'][0], env))
+            if cn in ('format',) and e['args']: return ev_str(e['args'][0], env)
+            if cn in ('concat',) and e['args']: return ''.join(ev_list(e['args'][0], env))
+            if cn in TRANSP and e['args']: return ev_str(e['args'][0], env)
+            if cn == 'from_str' and e['args']: return ev_str(e['args'][0], env)
+        raise _RowUndec('text construct %s: %s' % (k_, pp(e)[:40]))
+    def ev_list(e, env):
+        e = peel(e)
+        if e['k'] in ('VarRef', 'UpvarRef'):
+            if e['var'] == labels_p: return list(LAB)
+            v = env.get(e['var'])
+            if isinstance(v, list): return v
+            raise _RowUndec('list %s' % e['var'].split('#')[0])
+        if e['k'] == 'Call':
+            cn = (callee_name(e) or '').split('::')[-1]
+            if cn == 'enumerate': return [('pair', None, x) for x in ev_list(e['args'][0], env)]
+            if cn == 'zip': return [('pair', x, None) for x in ev_list(e['args'][0], env)]
+            if cn == 'map' and len(e['args']) == 2:
+                cl = peel(e['args'][1])
+                ct = binc.ithir.get(canon(cl['def'])) if cl['k'] == 'Closure' else None
+                if ct is None or len(ct['params']) != 2: raise _RowUndec('map closure')
+                out = []
+                for it in ev_list(e['args'][0], env):
+                    env2 = dict(env); bind(ct['params'][1]['pat'], it, env2)
+                    out.append(ev_str(ct['body'], env2))
+                return out
+            if cn in TRANSP and e['args']: return ev_list(e['args'][0], env)
+        raise _RowUndec('list construct %s' % pp(e)[:40])
+    def bind(p, v, env):
+        p = unwrap_pat(p)
+        if p['k'] == 'Binding': env[p['var']] = v if not (isinstance(v, tuple) and v[0] == 'pair') else v
+        elif p['k'] == 'Leaf' and 'adt' not in p and isinstance(v, tuple) and v[0] == 'pair':
+            for sp in p['subs']:
+                comp = v[1 + sp['field']]
+                if comp is not None: bind(sp['pat'], comp, env)
+        elif p['k'] != 'Wild': raise _RowUndec('pattern')
+    out = []
+    def run(e, env):
+        e0 = e
+        while e['k'] in ('Use', 'NeverToAny'): e = e['source']
+        k_ = e['k']
+        if k_ == 'Block':
+            env = dict(env)
+            for st in e['stmts']:
+                if st['k'] == 'Let':
+                    if st.get('init') is None: continue
+                    q = unwrap_pat(st['pat'])
+                    if q['k'] == 'Binding':
+                        for f_ in (ev_str, ev_list):
+                            try: env[q['var']] = f_(st['init'], env); break
+                            except _RowUndec: pass
+                else: run(st['expr'], env)
+            if e.get('expr') is not None: run(e['expr'], env)
+            return
+        if k_ == 'Match' and 'TryDesugar' in str(e.get('source')):
+            sc = peel(e['scrutinee'])
+            if sc['k'] == 'Call' and sc['args']: run(sc['args'][0], env)
+            return
+        if k_ == 'Match' and e.get('source') == 'ForLoopDesugar':
+            sc = peel(e['scrutinee'])
+            items = ev_list(sc['args'][0], env)
+            pat = body = None
+            for m_ in walk(e['arms'][0]['body']):
+                if m_['k'] == 'Match' and m_.get('source') == 'ForLoopDesugar':
+                    for a_ in m_['arms']:
+                        p_ = unwrap_pat(a_['pat'])
+                        if p_['k'] == 'Variant' and p_['variant'] == 'Some' and p_['subs']: pat, body = p_['subs'][0]['pat'], a_['body']
+                    break
+            if body is None: raise _RowUndec('loop')
+            for it in items:
+                env2 = dict(env); bind(pat, it, env2); run(body, env2)
+            return
+        if k_ == 'Call':
+            cn = callee_name(e) or ''
+            if cn == 'std::io::_print' or cn.endswith('write_fmt'):
+                out.append(ev_str(e['args'][-1], env)); return
+            if cn.endswith('Result::unwrap') or cn.endswith('Result::expect'):
+                run(e['args'][0], env); return
+            return
+        if k_ in ('Tuple', 'Assign', 'AssignOp', 'Adt', 'Literal'): return
+        if k_ == 'If' or k_ == 'Loop' or k_ == 'Match': raise _RowUndec('control flow %s in the row printer' % k_)
+    run(t['body'], {})
+    return ''.join(out)
+
+def rule_X12(F, R):
+    """C10: a table row has one cell per column of the header - `|`, then ` cell |` for every free variable, then ` result |` - for every
+    number of free variables, zero included (a formula without free variables prints `| True  |`, not `|  | True  |`)"""
+    binc = F.bin()
+    t = binc.ithir.get('rsbdd::print_sized_line')
+    if t is None:
+        import facts as _facts
+        if _facts.baseline_private('rsbdd::print_sized_line'):
+            R.count('X12:row-printer-gone'); return          # the row printer was folded into its caller: not read (the caller's layout is not a rule instance)
+        R.violation('rsbdd::print_sized_line / X12 / anchor', 'UNDECIDABLE', 'print_sized_line not found'); return
+    for k in (0, 1, 2, 3):
+        want = '|' + ''.join(' \u00abL%d\u00bb |' % i for i in range(k)) + ' \u00abR\u00bb |\n'
+        try:
+            got = row_text(binc, t, k)
+            ok = got == want; why = 'a row of %d cell(s) is written as %r, expected %r' % (k, got, want)
+        except _RowUndec as u:
+            ok = False; why = 'cannot read how a row is written: %s' % u
+        R.count('X12:row-layouts'); R.obligation(ok, 'X12 row %d' % k)
+        if not ok:
+            R.violation('rsbdd::print_sized_line / X12 / row of %d cells' % k, 'X12' if 'cannot read' not in why else 'UNDECIDABLE', why, t['span']['loc'] if 'span' in t else None)
+            break
 
 # ------------------------------------------------------------------------------------------------ X10 node labels of the parse tree
 REF_NODE_LABELS = {'BinaryOp': '{0:?}', 'Quantifier': '{0:?} [{1}]', 'Not': 'Not', 'CountableConst': '{0:?} {2}', 'CountableVariable': '{0:?}',
@@ -2389,6 +2563,52 @@ def rule_X8_flush(F, R, crate_name):
     R.count('X8:flushes', len(flushes)); R.obligation(ok, 'X8 flush ' + crate_name)
     if not ok:
         R.violation('%s::main / X8 / buffered output not flushed' % crate_name, 'X8', 'main writes through a BufWriter; after the last write it must call flush() and propagate its result (found %d propagated flush call(s))' % len(flushes), bufs[0].get('loc'))
+
+def rule_buffered_writers(F, R, crates=(('rsbdd', 'rlib'), ('rsbdd', 'executable'))):
+    """a function of the library or the CLI that wraps a writer in a BufWriter flushes it itself and hands the result on: dropped unflushed,
+    the buffer's write error is lost and the caller's `?` sees success"""
+    n = 0
+    for cn, kind in crates:
+        c = F.crate(cn, kind)
+        if c is None: continue
+        for name, t in sorted(c.ithir.items()):
+            if '{closure' in name or '@inl' in name or '<Args as clap::' in name: continue
+            bufs = [e for e in walk(t['body']) if e['k'] == 'Call' and (callee_name(e) or '') in ('std::io::BufWriter::new', 'std::io::BufWriter::with_capacity', 'std::io::LineWriter::new')]
+            if not bufs: continue
+            n += 1
+            tries = set()
+            for e in walk(t['body']):
+                if e['k'] == 'Call' and (callee_name(e) or '').endswith('Try>::branch') and e['args']:
+                    for x in walk(e['args'][0]): tries.add(id(x))
+            tail = t['body']
+            while tail['k'] in ('Use', 'NeverToAny'): tail = tail['source']
+            tail_ids = set(id(x) for x in walk(tail['expr'])) if tail['k'] == 'Block' and tail.get('expr') is not None else set()
+            flushes = [e for e in walk(t['body']) if e['k'] == 'Call' and ((callee_decl(e) or '') == 'std::io::Write::flush' or (callee_name(e) or '').endswith('BufWriter::into_inner')) and (id(e) in tries or id(e) in tail_ids)]
+            ok = bool(flushes)
+            R.count('X8:buffered-writers'); R.obligation(ok, 'X8 buffered ' + name)
+            if not ok: R.violation('%s / X8 / buffered writer not flushed' % name, 'X8', 'the function writes through a BufWriter it creates but never flushes it with the result handed on: a failed write is reported as success', bufs[0].get('loc'))
+    return n
+
+def rule_no_early_return(F, R, crate_name):
+    """a generator's main has one way to a successful end - through all of its output: no `return` other than the error exits of `?`"""
+    c = F.crate(crate_name)
+    t = c.ithir.get(crate_name + '::main') if c else None
+    if t is None:
+        R.violation('%s::main / early return / anchor' % crate_name, 'UNDECIDABLE', 'main not found'); return
+    out = []
+    def rec(x):
+        if isinstance(x, list):
+            for y in x: rec(y)
+            return
+        if not isinstance(x, dict): return
+        if x.get('k') == 'Return': out.append(x); return
+        if x.get('k') == 'Match' and 'TryDesugar' in str(x.get('source')): rec(x.get('scrutinee')); return
+        if x.get('k') == 'Closure': return
+        for k_, v in x.items():
+            if isinstance(v, (dict, list)) and k_ not in ('ty', 'pat'): rec(v)
+    rec(t['body'])
+    R.count('early-returns:' + crate_name, len(out)); R.obligation(not out, 'no early return ' + crate_name)
+    if out: R.violation('%s::main / early return' % crate_name, 'X8', 'main leaves successfully before all of its output is written on some path (the formula / graph for that input is missing or stale)', out[0].get('loc'))
 
 def rule_X8_after_input(F, R, crate_name, producers):
     """the output file is opened (and thereby emptied) only once everything that reads input or can refuse the request has run: a
